@@ -11,6 +11,9 @@ META = {
     "level": "Decides: (R1) a resolver can be constructed: restriction classes fed live mutable state are not instance-cached and locally bound strategy callables are called with their arity; (R2) each of BDEPEND/DEPEND/RDEPEND/PDEPEND/IDEPEND has its own slot on choice_point, filled from the package attribute of the same name, initialised, reduced together with the others and part of the state tuple; (R3) _rec_add_atom reports success for a newly inserted package only after rdepend, idepend, (depend, bdepend unless built) were processed before insertion and pdepend after it; (R4) every failure continues/returns only after backtracking the plan state to the frame's start point; (R5) blockers are registered through state.add_blocker with installed packages loaded first, the installed packages are loaded unless something matching the restriction is already tracked, and a slot is conflicting when a limiter matches or the same key+slot is occupied. Does NOT decide that a concrete returned plan is closed/consistent - that is the search's semantics.",
     "note": "snakeoil WeaklyCachedABC rejects unhashable constructor arguments unless caching=False (library fact); dependency processing itself recurses through the same function",
 }
+META["technique"] += "; " + 're-check rule for weak blockers'
+META["level"] += " Added after the second round of independent changes: " + '(R5) a blocker that hit a package is passed over only after state.match_atom(blocker) was asked again and found nothing.'
+META["technique"] += "; " + 'generic pack G on the anchored files (optional-flag shift, closures outliving a loop iteration, single-pass iterables consumed twice, %-templates built from data, in-place writes to class-level / memoised objects, generators mutating what they yielded, memo keys that are projections)'
 PL = "pkgcore.resolver.plan"
 CP = "pkgcore.resolver.choice_point"
 ST = "pkgcore.resolver.state"
